@@ -258,7 +258,7 @@ def _refiner(chk, modname, qual, kind):
 # ----------------------------------------------------------------------------
 #  adaptive event drivers
 # ----------------------------------------------------------------------------
-def _adaptive_driver(chk, kind, ham=False):
+def _adaptive_driver(chk, kind, ham=False, only=None):
     import hiten.algorithms.integrators.rk as rk
     qual = {"rk45": "_RK45._integrate_rk45_until_event", "dop853": "_DOP853._integrate_dop853_until_event"}[kind] \
         + ("_ham" if ham else "")
@@ -320,7 +320,8 @@ def _adaptive_driver(chk, kind, ham=False):
             return yh, ctx.fresh("y_low", "vec"), ctx.fresh("err_vec", "vec"), ctx.fresh("err5", "vec"), \
                 ctx.fresh("err3", "vec"), "K%d" % k
         ns[("rk45_step%s_jit_kernel" if kind == "rk45" else "dop853_step%s_jit_kernel") % ("_ham" if ham else "")] = kernel
-        ns["_error_scale"] = lambda y, yh, r, a: ctx.fresh("scale", "vec")
+        from contracts.C10 import _escale_contract
+        ns["_error_scale"] = _escale_contract(ctx, "driver: ", lambda: steps[-1]["y"], lambda: steps[-1]["y_high"], rtol, atol)
         ns["_pi_accept_factor"] = lambda e, ep, o: _bounded_factor(ctx, "acc")
         ns["_pi_reject_factor"] = lambda e, o: _bounded_factor(ctx, "rej")
         # callees under contract (each proved in C02 / above): replaced by "havoc result, assume ensures"
@@ -418,7 +419,14 @@ def _adaptive_driver(chk, kind, ham=False):
             ex.run(body)
             st["d"] = 1
         return ex
-    names = ["driver: raises nothing", "driver: _adjust_step_to_endpoint called with t < t_end and h > 0"] + \
+    from contracts.C10 import ESC
+    if only is not None:
+        for nm in only:
+            chk.obl(f"{qual}: driver: {nm}", "K2 path VC", [fn_label], "B1 z3 (B2 cvc5 on unknown)",
+                    lambda nm=nm: explore().verdict("driver: " + nm))
+        return
+    names = ["driver: raises nothing", "driver: _adjust_step_to_endpoint called with t < t_end and h > 0",
+             "driver: " + ESC] + \
         (["driver: Hamiltonian data handed to the step kernel unchanged"] if ham else []) + [
              "driver: on a hit the refiner receives (t, y, h, stages) of exactly the step that crossed",
              "driver: a hit is reported only when _event_crossed(g(t,y), g(t_new,y_new)) holds in that step",
